@@ -75,6 +75,9 @@ type c19Mach struct {
 	before    []byte
 	placement string
 	scr       uint64 // scramble state
+
+	logoChecked bool
+	logoMM      c19Mismatch
 }
 
 func c19GuardByte(i int) byte { return byte(i*31+7) ^ byte(i>>8) ^ 0x5a }
@@ -234,6 +237,8 @@ func c19Build(spec c19Spec, r *vlib.Rand) (m *c19Mach, setupPanic interface{}, s
 			}
 		}
 		cons.fb = m.fb
+		var lgUsed *logo.Image
+		var logoBefore []byte
 		setupPanic, stack = vlib.Protect(func() {
 			if spec.logoH > 0 {
 				np := r.Range(1, 16)
@@ -246,6 +251,8 @@ func c19Build(spec c19Spec, r *vlib.Rand) (m *c19Mach, setupPanic interface{}, s
 				for i := range lg.Data {
 					lg.Data[i] = uint8(r.Intn(np))
 				}
+				logoBefore = append([]byte(nil), m.fb...)
+				lgUsed = lg
 				cons.SetLogo(lg)
 			}
 			cons.SetFont(f)
@@ -260,6 +267,13 @@ func c19Build(spec c19Spec, r *vlib.Rand) (m *c19Mach, setupPanic interface{}, s
 			m.drv = "fb24"
 		}
 		m.mdl = c19NewModel(g, cons.Palette())
+		if lgUsed != nil && setupPanic == nil {
+			// the logo is drawn once, by SetLogo: its rectangle, its colours, and nothing else
+			m.mdl.expectLogo(lgUsed.Data, int64(lgUsed.Width), int64(lgUsed.Height), int(lgUsed.Align), len(lgUsed.Palette))
+			m.logoMM, _ = m.mdl.check(logoBefore, m.fb)
+			m.logoChecked = true
+			m.mdl.reset()
+		}
 	}
 	m.guardRef = make([]byte, len(m.host))
 	for i := range m.guardRef {
@@ -267,6 +281,21 @@ func c19Build(spec c19Spec, r *vlib.Rand) (m *c19Mach, setupPanic interface{}, s
 	}
 	m.before = make([]byte, len(m.fb))
 	return m, setupPanic, stack
+}
+
+// guardsFresh is guardsIntact before guardRef exists (right after construction).
+func (m *c19Mach) guardsFresh() (bool, int) {
+	for i := 0; i < m.lead; i++ {
+		if m.host[i] != c19GuardByte(i) {
+			return false, i - m.lead
+		}
+	}
+	for i := m.lead + len(m.fb); i < len(m.host); i++ {
+		if m.host[i] != c19GuardByte(i) {
+			return false, i - m.lead
+		}
+	}
+	return true, 0
 }
 
 // guardsIntact compares the guard regions with their pattern.
@@ -649,6 +678,19 @@ func TestVerifC19(t *testing.T) {
 		if sp != nil {
 			c.Violation(m.drv+":setup:panic", map[string]interface{}{"what": "SetLogo/SetFont panicked", "input": m.g.String(), "panic": fmt.Sprint(sp), "site": vlib.PanicSite(st)})
 			return
+		}
+		if m.logoChecked {
+			count("logos_compared", 1)
+			if ok, off := m.guardsFresh(); !ok {
+				c.Violationf(m.drv+":logo:guard-touched", "%s: SetLogo changed memory outside the framebuffer at offset %d", m.g.String(), off)
+				return
+			}
+			if m.logoMM.count > 0 {
+				c.Violation(m.drv+":logo:"+c19RegName[m.logoMM.region]+"-wrong", map[string]interface{}{"what": "framebuffer after SetLogo differs from the logo drawn in its rectangle and nothing else",
+					"input": m.g.String(), "logo": fmt.Sprintf("%dx%d align %d", m.spec.logoW, m.spec.logoH, int(m.spec.logoAlign)),
+					"first": m.mdl.where(m.logoMM.first), "got": fmt.Sprintf("%#02x", m.logoMM.got), "want": m.logoMM.want, "bytes_wrong": m.logoMM.count})
+				return
+			}
 		}
 		// the grid the driver reports must be the grid of the statement
 		if cw, ch := m.dev.Dimensions(Characters); int64(cw) != m.g.cols || int64(ch) != m.g.rows {
